@@ -102,7 +102,8 @@ PObs(e, d, s, m) ==
   ELSE IF op = "space_dimension" THEN V1(e.ri = d.n, "C09:space_dimension")
   ELSE IF op = "affine_dimension" THEN V1(e.ri = AffDim(AllV(d), m), "C09:affine_dimension")
   ELSE IF op = "is_empty" THEN V1(e.rb = (\A i \in 1..Len(d.D) : QEmpty(d.D[i].V)), "C09:is_empty")
-  ELSE IF op = "is_universe" THEN (IF ~Cheap(<<<<>>>>, AA) THEN "und" ELSE V1(e.rb = Covers(<<<<>>>>, AA, m), "C09:is_universe"))
+  \* "the top element of the powerset lattice": some disjunct is the universe (a union that merely covers the space is not the top element)
+  ELSE IF op = "is_universe" THEN V1(e.rb = (\E i \in 1..Len(d.D) : ~QEmpty(d.D[i].V) /\ Len(d.D[i].H) = 0), "C09:is_universe")
   ELSE IF op = "is_bounded" THEN V1(e.rb = (\A i \in 1..Len(d.D) : QBounded(d.D[i].V)), "C09:is_bounded")
   ELSE IF op = "OK" THEN V1(e.rb, "C09:OK()")
   ELSE IF op = "contains" THEN (IF AmbEmpty(d, s) THEN "und" ELSE IF e.rb # Entails(d, s) THEN "C09:contains-is-not-the-entailment-of-disjuncts"
